@@ -294,7 +294,9 @@ PROPS = {
         contracts=[f"{FS}:MetricFetcher._synchronize_and_fetch_fallback", f"{FS}:MetricFetcher.fetch_next_with_fallback",
                    f"{FS}:MetricFetcher._fetch_next",
                    "frequenz.sdk.timeseries.formula_engine._formula_generators._fallback_formula_metric_fetcher:"
-                   "FallbackFormulaMetricFetcher.start"],
+                   "FallbackFormulaMetricFetcher.start",
+                   "frequenz.sdk.timeseries.formula_engine._formula_generators._formula_generator:"
+                   "FormulaGenerator._get_meter_fallback_components"],
         lemmas=[],
         bounded=[],
         level="proof",
